@@ -204,6 +204,10 @@ class Scope(object):
         self.parent.nonlocals.update(self.nonlocals)
         self.parent.annotations.update(self.annotations)
       else:
+        # Names bound in nested functions are invisible to this scope, but
+        # symbols generated here are also referenced from inside them.
+        self.parent.hidden_names.update(
+            self.bound | self.isolated_names | self.hidden_names)
         # TODO(mdan): This is not accurate.
         # Names declared nonlocal are bound here, but still belong to an enclosing
         # function, so reads of them remain free.
